@@ -51,7 +51,7 @@ COMPOSITE = [
     "[x]", "[foo bar]", "[1]", "<nowiki/>", "<nowiki />", "<nowiki></nowiki>",
     "<nowiki>[[a]]</nowiki>", "{{t|", "{{t|[x]|y}}", "|[x]|", "|<nowiki/>|",
     "{{#if:", "{{#if:[x]|a|b}}", "[[a|", "[[a|[x]|c]]", "{{{p|", "{{{[x]|b}}}",
-    "{{t|<nowiki/>|y}}", "{{t||}}", "{{t|a=[x]|b}}", "[[a]]b", "[[a|b]]c",
+    "{{t|<nowiki/>|y}}", "{{t||}}", "{{#if:|1=x}}", "{{t||1=x}}", "{{t|a=[x]|b}}", "[[a]]b", "[[a|b]]c",
     "{{!}}", "{{=}}", "{{t|{{{1}}}}}", "{{{1|{{t}}}}}", "[http://x.org [x]]",
     "[[File:a.png|thumb|[x]]]", "''" + "'[x]'" + "''", "<span>[x]</span>",
     "|-\n|[x]", ";a:b", ";a\n:b", "*[x]", "= [x] =", "{|\n|+[x]\n|}",
